@@ -1,7 +1,4 @@
 #!/bin/sh
-# re-runs every seeded change against the current checks (no baseline); prints one line per seed
+# re-runs every seeded change against the current checks (no baseline), three at a time; one line per seed
 cd /verif
-for d in seeded/*/; do
-  id=$(basename $d); prop=$(/venv/bin/python -c "import json;print(json.load(open('$d/meta.json'))['property'])")
-  tools/seedcheck.py $id $prop /verif/seeded/$id --no-baseline "$@" 2>&1 | grep "^check" | sed "s/^/$id  /" | cut -c1-170
-done
+ls seeded | xargs -P ${SEEDALL_JOBS:-3} -I{} sh -c 'prop=$(/venv/bin/python -c "import json;print(json.load(open(\"seeded/{}/meta.json\"))[\"property\"])"); tools/seedcheck.py {} $prop /verif/seeded/{} --no-baseline 2>&1 | grep "^check\|PATCH DOES NOT" | sed "s/^/{}  /" | cut -c1-170'
